@@ -33,6 +33,11 @@ pub mod verif_hooks {
         crate::generate_artifacts::get_serialized_field_arguments(arguments, indentation_level)
     }
 
+    /// The content of the query_text module for an operation text.
+    pub fn query_text_file_content(query_text: String) -> String {
+        crate::operation_text::query_text_file_content(&common_lang_types::QueryText(query_text))
+    }
+
     pub fn write_optional_description(
         description: Option<&str>,
         query_type_declaration: &mut String,
